@@ -73,10 +73,13 @@ def describe_exc(exc):
         if fn.startswith(os.path.join(REPO, PKG) + os.sep):
             d["where"] = [os.path.relpath(fn, REPO), fr.lineno, fr.name]
     if isinstance(exc, NameError):
+        # includes UnboundLocalError (a local name that is not bound when it is read)
+        d["nameerror"] = True
         d["name"] = getattr(exc, "name", None) or ""
         if not d["name"]:
-            m = re.search(r"name '([^']+)' is not defined", str(exc))
-            d["name"] = m.group(1) if m else ""
+            m = (re.search(r"name '([^']+)' is not defined", str(exc))
+                 or re.search(r"local variable '([^']+)'", str(exc)))
+            d["name"] = m.group(1) if m else "?"
     if isinstance(exc, ImportError):
         m = re.search(r"cannot import name '([^']+)'", str(exc)) or re.search(r"No module named '([^']+)'", str(exc))
         d["name"] = m.group(1) if m else (getattr(exc, "name", None) or "")
@@ -281,7 +284,8 @@ SMOKE = {
         "Not": ["P.Not(int)('s')"],
         "SelectContext": ["P.SelectContext('a.b', lambda v: v == 1)((0, {'a': {'b': 1}}))",
                           "P.SelectContext('a.b', lambda v: True)((0, {}))",
-                          "P.SelectContext('a.b', lambda v: v.x)((0, {'a': {'b': 1}}))"],
+                          "P.SelectContext('a.b', lambda v: v.x)((0, {'a': {'b': 1}}))",
+                          "P.SelectContext('a.b', lambda v: v.x, raise_on_error=True)((0, {'a': {'b': 1}}))"],
         "Cache": ["run(P.Cache('c.pkl'), [1, 2])", "P.Cache('c.pkl', method='json')"],
         "Chain": ["list(P.Chain([1], [2])())"],
         "Count": ["fc(P.Count(), [1, 2])", "run(P.Count(), [1, (2, {})])"],
